@@ -79,6 +79,59 @@ def generate(chk, name, c, *, simulate=None, depth=60, seed=None, invariants=ALL
     return hists
 
 
+def tla_rec(op):
+    return "[" + ", ".join("%s |-> %s" % (k, ('"%s"' % v) if isinstance(v, str) else str(v)) for k, v in op.items()) + "]"
+
+
+def generate_directed(chk, name, c, scripts, *, invariants=ALL_INV, timeout=600):
+    """Directed family: TLC follows exactly the given op scripts (Forced <- ForcedScripts in a generated module that
+    EXTENDS Bev) and still predicts every observation; returns one history per script (+ closing loop steps)."""
+    import shutil
+    d = os.path.join(vkit.OUT, "tmp", "bevdir_%s_%d" % (name, os.getpid()))
+    shutil.rmtree(d, ignore_errors=True)
+    os.makedirs(d)
+    shutil.copy(os.path.join(vkit.SPECS, "Bev.tla"), os.path.join(d, "Bev.tla"))
+    body = ",\n  ".join("<<" + ", ".join(tla_rec(op) for op in sc) + ">>" for sc in scripts)
+    with open(os.path.join(d, "BevDir.tla"), "w") as f:
+        f.write("---- MODULE BevDir ----\nEXTENDS Bev\nForcedScripts == <<\n  %s >>\n====\n" % body)
+    cfg = os.path.join(d, "BevDir.cfg")
+    L = ["CONSTANTS"] + ["  %s = %s" % (k, tla_val(v)) for k, v in c.items()] + ["  Forced <- ForcedScripts",
+         "INIT Init", "NEXT Next", "CONSTRAINT GenConstraint"] + ["INVARIANT " + i for i in list(invariants) + ["Emit"]] + \
+        ["CHECK_DEADLOCK FALSE"]
+    open(cfg, "w").write("\n".join(L) + "\n")
+    hists = []
+    try:
+        res = vkit.tlc(os.path.join(d, "BevDir.tla"), cfg, print_sink=hists.append, timeout=timeout, workers=2)
+    finally:
+        shutil.rmtree(d, ignore_errors=True)
+    vkit.log("[gen] %s: %d directed histories of %d scripts, %d states, %.1fs" % (name, len(hists), len(scripts), res.generated, res.wall))
+    chk.add_tlc(name, res)
+    if len(hists) != len(scripts):
+        raise vkit.InfraError("directed family %s: %d scripts but %d histories (a script is not a behaviour of the "
+                              "specification, or meets an excluded trigger)" % (name, len(scripts), len(hists)))
+    return hists
+
+
+def sock_highmark_family():
+    """Socket, reader = endpoint 2: L units are buffered unread, then the read high watermark is set to L-1 / L / L+1,
+    then the peer writes more (no EOF while the peer is open; suspended at == high; resumes after a drain)."""
+    out = []
+    for dr in (0, 1):
+        for L in (1, 2):
+            for hi in (L - 1, L, L + 1):
+                for lo in (0, 1):
+                    for n in (1, 3):
+                        if lo == 0 and hi == 0:
+                            continue        # setting the watermarks a bufferevent already has is not a step
+                        sc = [{"a": "script", "e": 2, "dr": dr, "xa": "none", "xk": "r"}] if dr else []
+                        sc += [{"a": "enable", "e": 2, "m": 2}, {"a": "write", "e": 1, "n": L + dr},
+                               {"a": "loop", "e": 1, "t": 0}, {"a": "loop", "e": 2, "t": 0},
+                               {"a": "wm", "e": 2, "m": 2, "lo": lo, "hi": hi}, {"a": "write", "e": 1, "n": n},
+                               {"a": "loop", "e": 1, "t": 0}, {"a": "loop", "e": 2, "t": 0}]
+                        out.append(sc)
+    return out
+
+
 # ---- projections: what each property fixes ---------------------------------------------------------
 def _cb(e, keys):
     return {k: e[k] for k in keys if k in e}
@@ -210,7 +263,9 @@ def standard_run(pid, tier, seed, plan):
             raise vkit.InfraError("model run %s explored only %d states to depth %d" % (name, res.distinct, res.depth))
     total = {}
     for g in plan["gen"]:
-        hs = generate(chk, g["name"], g["consts"], simulate=g.get("simulate"), depth=g.get("depth", 40),
+        hs = generate_directed(chk, g["name"], g["consts"], g["scripts"], invariants=g.get("invariants", ALL_INV)) \
+            if g.get("scripts") else \
+            generate(chk, g["name"], g["consts"], simulate=g.get("simulate"), depth=g.get("depth", 40),
                       seed=seed if g.get("simulate") else None, max_hist=g.get("max_hist"),
                       invariants=g.get("invariants", ALL_INV),
                       workers=g.get("workers") or ((4 if tier == "quick" else 8) if g.get("simulate") else None))
